@@ -110,6 +110,17 @@ let () =
         let mp = model_parse f.(2) in
         if mp <> f.(3) then fail id "CORR" "parse_trailing" (trunc ("text=" ^ show f.(2) ^ " model=" ^ mp ^ " impl=" ^ f.(3)));
         if f.(3) <> "ERR" then fail id "SPEC" "trailing_rejected" (trunc ("text=" ^ show f.(2) ^ " got=" ^ f.(3)))
+      | "TG" ->
+        (* trailing garbage: f2 label, f3 hex of the (clipped) raw text, f4 model text or UNREP,
+           f5 result with NoValidate, f6 result with validation *)
+        count "trailing_garbage";
+        count ("garbage_" ^ (if f.(4) = "UNREP" then "spec_only" else "model_too"));
+        let raw = String.escaped (String.concat "" (List.map (fun b -> String.make 1 (Char.chr (int_of_n b))) (bytes_of_hex f.(3)))) in
+        if f.(5) <> "ERR" then fail id "SPEC" "trailing_garbage_rejected" (trunc ("kind=" ^ f.(2) ^ " text=" ^ raw ^ " got=" ^ f.(5)));
+        if f.(6) <> "ERR" then fail id "SPEC" "trailing_garbage_rejected_validating" (trunc ("kind=" ^ f.(2) ^ " text=" ^ raw ^ " got=" ^ f.(6)));
+        if f.(4) <> "UNREP" then begin
+          let mp = model_parse f.(4) in
+          if mp <> f.(5) then fail id "CORR" "parse_trailing_garbage" (trunc ("text=" ^ raw ^ " model=" ^ mp ^ " impl=" ^ f.(5))) end
       | "F" ->
         count "floats";
         if f.(4) <> "ok" then fail id "SPEC" "float_oracle" (f.(2) ^ " " ^ f.(3) ^ " " ^ f.(4))
